@@ -808,3 +808,253 @@ Section Safety.
     - rewrite Ed, !good_path_app, Gnd, G. cbn. rewrite kust_name_good; auto.
   Qed.
 End Safety.
+
+(* ------------------------------------------------------------------ the whole run *)
+
+(* where newDir will be: the in-memory file system's reading of the destination argument
+   (util.go defaultNewDir when it is empty) *)
+Definition newdir_path (target newdir : string) : cpath :=
+  query_comps (if String.eqb newdir "" then default_new_dir (query_comps target) else newdir).
+
+Lemma triple_prelude nd s0 target scope newdir :
+  nd = newdir_path target newdir ->
+  triple nd s0 (localize_prelude target scope newdir)
+    (fun x => let '(sc, troot, nd') := x in
+              nd' = nd /\ good_path nd = true /\ good_path sc = true /\
+              exists r, good_path r = true /\ troot = sc ++ r).
+Proof.
+  intros End. unfold localize_prelude.
+  eapply triple_bind; [apply triple_guard|]. intros _ _.
+  eapply triple_bind; [apply triple_confirm_dir|]. intros troot [Gt Et].
+  eapply triple_bind.
+  { instantiate (1 := fun sc => good_path sc = true /\ exists r, good_path r = true /\ troot = sc ++ r).
+    destruct (String.eqb scope "").
+    - apply triple_ret. split; auto. exists []. rewrite app_nil_r. auto.
+    - eapply triple_bind; [apply triple_confirm_dir|]. intros s [Gs _].
+      destruct (has_prefix_c troot s) eqn:Hp; [|apply triple_throw].
+      apply triple_ret. split; auto. unfold has_prefix_c in Hp.
+      destruct (is_prefix_inv _ _ Hp) as [r ->]. exists r. split; auto.
+      rewrite good_path_app in Gt. apply andb_prop in Gt; tauto. }
+  intros sc [Gsc Hr].
+  assert (Eraw : nd = query_comps (if String.eqb newdir "" then default_new_dir troot else newdir)).
+  { rewrite End. unfold newdir_path. rewrite Et. reflexivity. }
+  set (raw := if String.eqb newdir "" then default_new_dir troot else newdir) in *.
+  eapply triple_bind.
+  { instantiate (1 := fun _ => True). unfold op_bool. apply triple_ro; auto.
+    intros r; destruct r; apply triple_ret; auto. }
+  intros ex _. destruct ex; [apply triple_throw|].
+  eapply triple_bind.
+  { eapply triple_op_unit; [left; reflexivity|]. rewrite <- Eraw. apply is_prefix_refl. }
+  intros _ _.
+  eapply triple_bind; [apply triple_pcatch, triple_confirm_dir|]. intros r Hrr.
+  destruct r as [nd'|].
+  - destruct (Hrr _ eq_refl) as [G' E']. apply triple_ret.
+    rewrite <- Eraw in E'. subst nd'. repeat split; auto.
+  - apply triple_remove; auto. intros; apply triple_throw.
+Qed.
+
+Lemma triple_tail nd s0 orc fuel sc troot :
+  good_path nd = true -> good_path sc = true ->
+  (exists r, good_path r = true /\ troot = sc ++ r) ->
+  triple nd s0 (localize_tail orc fuel (sc, troot, nd)) (fun _ => True).
+Proof.
+  intros Gnd Gsc (r & Gr & ->). unfold localize_tail.
+  rewrite rel_comps_below. rewrite join_comps_normal by (apply good_path_normal; auto).
+  eapply triple_bind.
+  { eapply triple_op_unit; [right; left; reflexivity|].
+    rewrite query_show by (rewrite good_path_app, Gnd, Gr; auto). apply is_prefix_app. }
+  intros _ _.
+  eapply triple_bind.
+  { apply triple_pcatch. apply triple_localize; auto. exists r. auto. }
+  intros [u|] _.
+  - apply triple_ret; auto.
+  - apply triple_remove; [right; apply query_show; auto|]. intros; apply triple_throw.
+Qed.
+
+Theorem run_safe orc fuel target scope newdir s0 :
+  triple (newdir_path target newdir) s0 (localize_run orc fuel target scope newdir) (fun _ => True).
+Proof.
+  unfold localize_run. eapply triple_bind; [apply triple_prelude; reflexivity|].
+  intros [[sc troot] nd'] (-> & Gnd & Gsc & Hr). apply triple_tail; auto.
+Qed.
+
+Lemma inv_world0 nd s : fs_wf s -> Inv nd s (world0 s).
+Proof. intros W. split; [exact W|]. split; [constructor|]. intros _ p _. reflexivity. Qed.
+
+(* every mkdir / write of any run, with any fault position and any map iteration order, targets
+   a path inside newDir; RemoveAll is only ever applied to newDir (or to "" — the createNewDir defect) *)
+Theorem writes_confined orc ch fuel target scope newdir fault s w out :
+  fs_wf s ->
+  run_localize orc ch fuel target scope newdir fault s = (w, out) ->
+  Forall (safe_ev (newdir_path target newdir)) (w_trace w).
+Proof.
+  intros W H. destruct (run_safe orc fuel target scope newdir s _ _ _ _ _ (inv_world0 _ _ W) H) as [(_ & T & _) _].
+  exact T.
+Qed.
+
+(* nothing outside newDir changes, whatever happens (given that newDir's parent chain exists) *)
+Theorem source_unchanged orc ch fuel target scope newdir fault s w out :
+  fs_wf s ->
+  ancestors_dirs (newdir_path target newdir) s ->
+  run_localize orc ch fuel target scope newdir fault s = (w, out) ->
+  forall p, is_prefix (newdir_path target newdir) p = false -> lookup p (w_fs w) = lookup p s.
+Proof.
+  intros W A H. destruct (run_safe orc fuel target scope newdir s _ _ _ _ _ (inv_world0 _ _ W) H) as [(_ & _ & F) _].
+  apply F; auto.
+Qed.
+
+(* ------------------------------------------------------------------ all-or-nothing *)
+
+(* FileSystem.Exists(newDir) *)
+Definition exists_path (s : fs) (p : cpath) : bool :=
+  match fs_find s (show_abs p) with FRoot | FNode _ _ => true | _ => false end.
+
+Lemma fs_find_bound s p q e : fs_find s p = FNode q e -> lookup q s = Some e.
+Proof.
+  unfold fs_find. destruct (String.eqb p ""); [discriminate|].
+  destruct (String.eqb p "/" || String.eqb p ".")%bool; [discriminate|].
+  destruct (query_comps p) as [|c0 c] eqn:Q; [discriminate|].
+  intros H. eapply find_walk_bound; [|eauto]. discriminate.
+Qed.
+
+Lemma remove_all_gone s p s' :
+  fs_remove_all s p = Some s' ->
+  match fs_find s' p with FRoot | FNode _ _ => true | _ => false end = false.
+Proof.
+  unfold fs_remove_all. destruct (fs_find s p) as [|q e| |] eqn:F; intros H; inv H.
+  - destruct (fs_find_node _ _ _ _ F) as [Eq Hne].
+    destruct (fs_find (fs_remove q s) p) as [|q' e'| |] eqn:F'; auto.
+    + apply fs_find_root in F'. congruence.
+    + destruct (fs_find_node _ _ _ _ F') as [Eq' _]. apply fs_find_bound in F'.
+      rewrite lookup_remove in F'. rewrite Eq', <- Eq, is_prefix_refl in F'. discriminate.
+  - rewrite F. reflexivity.
+Qed.
+
+Lemma pcatch_not_err {A} ch fault (m : prog A) w w' x :
+  run ch fault (pcatch m) w = (w', OExn x) -> x <> XErr.
+Proof.
+  rewrite run_pcatch. destruct (run ch fault m w) as [w1 [a|[| | | |]]]; intros H; inv H; discriminate.
+Qed.
+
+(* programs that never create directories recursively: the part of Run before MkdirAll(dst) *)
+Inductive no_mkdirall {A} : prog A -> Prop :=
+| nm_ret a : no_mkdirall (Ret a)
+| nm_throw x : no_mkdirall (Throw x)
+| nm_op e k : (forall p, e <> EMkdirAll p) -> (forall r, no_mkdirall (k r)) -> no_mkdirall (Op e k).
+
+Definition quiet (tr : list event) : Prop := forall e, In e tr -> ev_op e <> OMkdirAll.
+
+Lemma no_mkdirall_bind {A B} (m : prog A) (f : A -> prog B) :
+  no_mkdirall m -> (forall a, no_mkdirall (f a)) -> no_mkdirall (pbind m f).
+Proof. induction 1; cbn; auto; constructor; auto. Qed.
+
+Lemma no_mkdirall_pcatch {A} (m : prog A) : no_mkdirall m -> no_mkdirall (pcatch m).
+Proof. induction 1; cbn; try constructor; auto. destruct x; constructor. Qed.
+
+Lemma no_mkdirall_quiet {A} ch fault (m : prog A) : no_mkdirall m ->
+  forall w w' out, quiet (w_trace w) -> run ch fault m w = (w', out) -> quiet (w_trace w').
+Proof.
+  induction 1 as [a|x|e k He Hk IH]; intros w w' out Q H0; cbn in H0; try (inv H0; auto).
+  destruct e; try (eapply IH; eauto; fail);
+    (destruct (step_world fault _ w) as [w1 r] eqn:E; unfold step_world in E;
+     match type of E with context [if ?b then _ else _] => destruct b end;
+     [| destruct (exec _ (w_fs w)) as [s' r'] ]; inv E;
+     (eapply IH; [|eauto]; intros e' [<-|Hin]; cbn; auto; try discriminate;
+      exfalso; eapply He; reflexivity)).
+Qed.
+
+Lemma no_mkdirall_confirm p : no_mkdirall (confirm_dir p).
+Proof.
+  unfold confirm_dir. destruct (String.eqb p ""); constructor; try discriminate.
+  intros r; destruct r; try constructor. destruct (String.eqb f ""); constructor.
+Qed.
+
+Lemma no_mkdirall_prelude target scope newdir : no_mkdirall (localize_prelude target scope newdir).
+Proof.
+  unfold localize_prelude.
+  apply no_mkdirall_bind; [unfold guard_local; destruct (remote_like target); constructor|]. intros _.
+  apply no_mkdirall_bind; [apply no_mkdirall_confirm|]. intros troot.
+  apply no_mkdirall_bind.
+  { destruct (String.eqb scope ""); [constructor|].
+    apply no_mkdirall_bind; [apply no_mkdirall_confirm|]. intros s.
+    destruct (has_prefix_c troot s); constructor. }
+  intros sc. apply no_mkdirall_bind.
+  { unfold op_bool. constructor; try discriminate. intros r; destruct r; constructor. }
+  intros ex. destruct ex; [constructor|].
+  apply no_mkdirall_bind.
+  { unfold op_unit. constructor; try discriminate. intros r; destruct r; constructor. }
+  intros _. apply no_mkdirall_bind; [apply no_mkdirall_pcatch, no_mkdirall_confirm|].
+  intros r. destruct r; constructor; try discriminate. intros; constructor.
+Qed.
+
+Lemma step_mkdirall_res fault p w :
+  snd (step_world fault (EMkdirAll p) w) = RUnit \/
+  (snd (step_world fault (EMkdirAll p) w) = RFail).
+Proof.
+  unfold step_world. destruct (fallible (EMkdirAll p) && fault_hit fault (w_n w))%bool; cbn; auto.
+  destruct (fs_mkdir (w_fs w) p); cbn; auto.
+Qed.
+
+Lemma step_trace fault e w :
+  w_trace (fst (step_world fault e w)) =
+  mkEv (eff_op e) (eff_path e) (res_ok (snd (step_world fault e w))) :: w_trace w.
+Proof.
+  unfold step_world. destruct (fallible e && fault_hit fault (w_n w))%bool; cbn; auto.
+  destruct (exec e (w_fs w)); reflexivity.
+Qed.
+
+Lemma tail_cleanup orc ch fault fuel sc troot nd w w' :
+  quiet (w_trace w) ->
+  run ch fault (localize_tail orc fuel (sc, troot, nd)) w = (w', OExn XErr) ->
+  (exists e, In e (w_trace w') /\ ev_op e = OMkdirAll /\ ev_ok e = true) ->
+  (forall e, In e (w_trace w') -> ev_op e = ORemoveAll -> ev_ok e = true) ->
+  exists_path (w_fs w') nd = false.
+Proof.
+  intros Q H Hmk Hrm. unfold localize_tail in H.
+  rewrite run_bind in H. unfold op_unit in H. rewrite run_op in H by discriminate.
+  pose proof (step_mkdirall_res fault (show_abs (join_comps nd (rel_comps sc troot))) w) as R.
+  pose proof (step_trace fault (EMkdirAll (show_abs (join_comps nd (rel_comps sc troot)))) w) as T.
+  destruct (step_world fault (EMkdirAll (show_abs (join_comps nd (rel_comps sc troot)))) w) as [w1 r].
+  cbn [fst snd] in R, T. destruct R as [->| ->]; cbn [run] in H.
+  2:{ inv H. exfalso. destruct Hmk as (e & Hin & Hop & Hok). rewrite T in Hin.
+      destruct Hin as [<-|Hin]; [cbn in Hok; discriminate|]. eapply Q; eauto. }
+  rewrite run_bind in H.
+  destruct (run ch fault (pcatch _) w1) as [w2 [[u|]|x]] eqn:E.
+  - cbn in H. inv H.
+  - rewrite run_op in H by discriminate.
+    pose proof (step_trace fault (ERemoveAll (show_abs nd)) w2) as T2.
+    destruct (step_world fault (ERemoveAll (show_abs nd)) w2) as [w3 r3] eqn:S3.
+    cbn [run] in H. inv H. cbn [fst snd] in T2.
+    assert (Ok3 : res_ok r3 = true).
+    { specialize (Hrm (mkEv ORemoveAll (show_abs nd) (res_ok r3))). cbn in Hrm. apply Hrm; auto.
+      rewrite T2. left. reflexivity. }
+    unfold step_world in S3.
+    destruct (fallible (ERemoveAll (show_abs nd)) && fault_hit fault (w_n w2))%bool.
+    + inv S3. discriminate.
+    + cbn [exec] in S3. destruct (fs_remove_all (w_fs w2) (show_abs nd)) as [s'|] eqn:RA.
+      * inv S3. cbn [w_fs]. unfold exists_path. eapply remove_all_gone; eauto.
+      * inv S3. discriminate.
+  - inv H. exfalso. eapply pcatch_not_err; eauto.
+Qed.
+
+(* If localization fails with an error after the destination tree was started (MkdirAll(dst)
+   succeeded, i.e. the fault — if any — hit at or after the first effect of localize()), and the
+   cleanup call itself did not fail, then newDir does not exist afterwards. *)
+Theorem all_or_nothing_partial orc ch fuel target scope newdir fault s w :
+  fs_wf s ->
+  run_localize orc ch fuel target scope newdir fault s = (w, OExn XErr) ->
+  (exists e, In e (w_trace w) /\ ev_op e = OMkdirAll /\ ev_ok e = true) ->
+  (forall e, In e (w_trace w) -> ev_op e = ORemoveAll -> ev_ok e = true) ->
+  exists_path (w_fs w) (newdir_path target newdir) = false.
+Proof.
+  intros W H Hmk Hrm. unfold run_localize, localize_run in H. rewrite run_bind in H.
+  destruct (run ch fault (localize_prelude target scope newdir) (world0 s)) as [w1 [[[sc troot] nd']|x]] eqn:E.
+  - pose proof (no_mkdirall_quiet ch fault _ (no_mkdirall_prelude target scope newdir) _ _ _
+                  (fun e (Hin : In e (w_trace (world0 s))) => match Hin with end) E) as Q.
+    destruct (triple_prelude _ s target scope newdir eq_refl _ _ _ _ _ (inv_world0 _ _ W) E) as [_ P].
+    destruct (P _ eq_refl) as (-> & _).
+    eapply tail_cleanup; eauto.
+  - inv H. exfalso. destruct Hmk as (e & Hin & Hop & _).
+    eapply (no_mkdirall_quiet ch fault _ (no_mkdirall_prelude target scope newdir) _ _ _
+              (fun e (Hin : In e (w_trace (world0 s))) => match Hin with end) E); eauto.
+Qed.
